@@ -74,7 +74,45 @@ func prodCampaign(rc *RunCtx, chains, steps int) {
 		p.Run(steps, 40)
 		c04Conservation(e)
 	}
+	prodDomainSweep(rc)
 	ProbeHistory(rc, rc.Pick(240, 900), rc.Shard%2 == 1)
+}
+
+// prodDomainSweep: a send (alternating both variants) to every destination domain of sweepDomains, and - after the
+// owner registered a messenger for the domains 6..24 - a deposit to each of them, every second one replaced by its
+// depositor afterwards. What is emitted does not depend on which number the destination domain is.
+func prodDomainSweep(rc *RunCtx) {
+	e, err := NewProdEngine(rc, false, nil, nil)
+	if err != nil {
+		rc.Cov.Inconclusive("domain sweep engine: " + err.Error())
+		return
+	}
+	for i, d := range sweepDomains() {
+		if i%rc.NShards != rc.Shard {
+			continue
+		}
+		var m sdk.Msg = &ct.MsgSendMessage{From: Acct(UserIx), DestinationDomain: d, Recipient: Structured32(byte(d)), MessageBody: []byte("to anywhere")}
+		if i%2 == 1 {
+			m = &ct.MsgSendMessageWithCaller{From: Acct(UserIx), DestinationDomain: d, Recipient: Structured32(byte(d)), MessageBody: []byte("to anywhere"), DestinationCaller: Structured32(byte(d + 1))}
+		}
+		r := e.Exec(Tx{Msgs: msgs1(m), Note: fmt.Sprintf("domain sweep: send to destination domain %d", d)})
+		rc.Cov.Cell("prod_domain_sweep", "send/"+okWord(r.OK))
+		if d >= 6 && d <= 24 {
+			e.Exec(Tx{Msgs: msgs1(&ct.MsgAddRemoteTokenMessenger{From: e.M.Owner, DomainId: d, Address: Messenger(d, 0)}), Note: "domain sweep: register a messenger"})
+			from, _ := (&ProdGen{E: e, G: NewGen(e)}).funded()
+			var dep sdk.Msg = &ct.MsgDepositForBurn{From: from, Amount: mkInt(big.NewInt(int64(1 + d))), DestinationDomain: d, MintRecipient: Structured32(byte(d + 2)), BurnToken: e.MintDenom()}
+			if i%2 == 0 {
+				dep = &ct.MsgDepositForBurnWithCaller{From: from, Amount: mkInt(big.NewInt(int64(1 + d))), DestinationDomain: d, MintRecipient: Structured32(byte(d + 2)), BurnToken: e.MintDenom(), DestinationCaller: Structured32(byte(d + 3))}
+			}
+			r := e.Exec(Tx{Msgs: msgs1(dep), Note: fmt.Sprintf("domain sweep: deposit to destination domain %d", d)})
+			rc.Cov.Cell("prod_domain_sweep", "deposit/"+okWord(r.OK))
+			if r.OK && len(r.Sent) == 1 && d%2 == 0 {
+				r2 := e.Exec(Tx{Msgs: msgs1(&ct.MsgReplaceDepositForBurn{From: from, OriginalMessage: r.Sent[0], OriginalAttestation: e.Attest(r.Sent[0], 0), NewDestinationCaller: Structured32(9), NewMintRecipient: Structured32(8)}),
+					Note: fmt.Sprintf("domain sweep: replace the deposit to destination domain %d", d)})
+				rc.Cov.Cell("prod_domain_sweep", "replace-deposit/"+okWord(r2.OK))
+			}
+		}
+	}
 }
 
 // thresholdAboveSet: configurations in which the signature threshold exceeds the number of enabled attesters
